@@ -28,7 +28,7 @@ pub fn cap_of(kind: u8, padded: usize) -> usize {
         1 => padded + 1,
         2 => padded + padded / 2 + 1,
         3 => 2 * padded,
-        _ => 256,
+        _ => 256.max(padded),
     }
 }
 
@@ -39,6 +39,13 @@ fn cases(ctx: &Ctx, curve: &str) -> Vec<Case> {
     for (name, cfg) in corner_cfgs(max_g) {
         let s = r.u64();
         v.push(Case { curve: curve.into(), name, seed: s, cfg, cap_p: (s % 5) as u8, cap_v: ((s >> 8) % 5) as u8, cross_prover: true });
+    }
+    if ctx.tier == Tier::Thorough {
+        // a few large circuits (many rounds, long vectors)
+        for (a, b) in [(255usize, 0usize), (256, 0), (257, 0), (200, 312), (0, 300), (1000, 24)] {
+            let s = r.u64();
+            v.push(Case { curve: curve.into(), name: format!("large-n1={},n2={}", a, b), seed: s, cfg: GenCfg { q: 3, depth: 1, ..GenCfg::simple(a, b) }, cap_p: 0, cap_v: (s % 2) as u8 * 3, cross_prover: false });
+        }
     }
     let n = ctx.n(500, 8000);
     for i in 0..n {
@@ -146,7 +153,7 @@ fn run_case<G: AffineRepr>(env: &Env<G>, c: &Case) -> CaseOut {
 }
 
 fn run_curve<G: AffineRepr>(ctx: &Ctx, curve: &'static str, only: Option<&Case>) -> Agg {
-    let env = Env::<G>::new(curve, 256);
+    let env = Env::<G>::new(curve, if ctx.tier == Tier::Thorough { 1024 } else { 256 });
     let cs = match only {
         Some(c) => vec![c.clone()],
         None => cases(ctx, curve),
